@@ -13,6 +13,70 @@ import startupcheck
 RMEM = 180
 
 
+def chain_nested(res, rng):
+    """committed-only history whose log creates a chain of table pages the db file has never seen (wide rows, no checkpoint, big pool:
+    nothing but the log reaches the disk); crash; the first recovery writes its pages in map order; it is interrupted after every
+    prefix of these writes (a later page of the chain without its predecessor, a predecessor without its successor, ...) and
+    recovery is run again: all committed rows must be there, the table must accept new rows, and these must survive another crash"""
+    from dbsession import DB
+    import os
+    fails = []
+    db = DB(mem_kb=4000)
+    try:
+        if not db.open().startswith("ok"):
+            return [("open", "database does not start")]
+        sqlt = rng.random() < 0.5
+        if sqlt:
+            db.sql("CREATE TABLE ta(k int, g int, v varchar(255));"); db.sql("CREATE TABLE tb(k int, g int, v varchar(255));")
+        else:
+            db.cmd("mktable ta k:i:n,g:i:n,v:s:n"); db.cmd("mktable tb k:i:n,g:i:n,v:s:n")
+        db.cmd("checkpoint")
+        db.cmd("mark SETUP-DONE")
+        n = rng.randrange(35, 70)
+        want = []
+        for i in range(n):
+            v = pad(200 + i % 50, i)
+            db.sql("INSERT INTO ta(k,g,v) VALUES (%d, %d, '%s');" % (i, i % 7, v))
+            want.append("i:%d,i:%d,s:%s" % (i, i % 7, v.encode().hex()))
+            if i % 9 == 0:
+                db.sql("INSERT INTO tb(k,g,v) VALUES (%d, 1, 'b');" % i)
+        want_a = "ok:" + ";".join(sorted(want))
+        tp = os.path.join(db.dir, "chain.trace")
+        db.cmd("trace " + tp)
+        trace = load_trace(tp)
+        base = image_at(trace, len(trace))
+        first = restart_on(base, ["ta", "tb"], mem_kb=400, probe=False, want_trace=True)
+        shutil.rmtree(first.get("dir", "/nonexistent"), ignore_errors=True)
+        rtrace = first.get("trace") or []
+        if first["status"] != "ok" or first["rows"]["ta"] != want_a:
+            return [("# session:\n" + "\n".join(l[:120] for l in db.log[:8]) + "\n...", "plain recovery of a log that creates a page chain fails (C01's subject): %s" % (first.get("detail") or first["rows"]["ta"][:200]))]
+        ks = [k for k in range(len(rtrace) + 1) if k == len(rtrace) or rtrace[k][0] != "M"]
+
+        def one(k):
+            return k, restart_on(image_at(rtrace, k, base=base), ["ta", "tb"], mem_kb=400, durability=(k % 2 == 0))
+        for k, out in parallel(one, ks):
+            res.note_case("chain|%s|%d|%d" % ("sql" if sqlt else "api", n, k), any(e[0] == "P" for e in rtrace[:k]))
+            res.extra["nested_images"] = res.extra.get("nested_images", 0) + 1
+            bad = None
+            if out["status"] != "ok":
+                bad = "restart after the interrupted recovery fails: %s" % out.get("detail", out["status"])
+            elif out["rows"]["ta"] != want_a:
+                got = out["rows"]["ta"][3:].split(";") if out["rows"]["ta"] != "ok:" else []
+                bad = "committed rows are lost: ta has %d rows, %d were committed before the first crash" % (len(got), n)
+            elif out.get("probe", "ok") != "ok":
+                bad = str(out.get("probe"))
+            elif out.get("durability", "ok") != "ok":
+                bad = out["durability"]
+            if bad and len(fails) < 2:
+                fails.append(("# verifharness db session: %s tables ta, tb; checkpoint; %d auto-commit inserts of 200-250 byte rows into ta (and a few into tb), no page write; crash\n"
+                              "# first recovery's I/O: %s\n# interrupted after %d of them; then a complete recovery" % ("SQL-created" if sqlt else "catalog-API (no index)", n,
+                              " ".join(e[0] + (str(e[1]) if e[0] == "P" else "") for e in rtrace if e[0] != "M"), sum(1 for e in rtrace[:k] if e[0] != "M")),
+                              "recovery interrupted after %s and repeated: %s" % ("writing pages " + ",".join(str(e[1]) for e in rtrace[:k] if e[0] == "P") if any(e[0] == "P" for e in rtrace[:k]) else "no write", bad)))
+    finally:
+        db.destroy()
+    return fails
+
+
 def run(res, replay=None):
     res.rule = ("base crash images sampled from serial histories as in C01/C02 (no torn writes); for each, recovery is run with tracing and EVERY prefix of its own I/O trace "
                 "(page writes of redone/undone pages, log truncation, new log writes) is applied to the image and recovery is run again (depth 2; a sample continued to depth 3); "
@@ -24,11 +88,17 @@ def run(res, replay=None):
     if not go_ok:
         return
     rng = random.Random(res.seed)
-    nh = 4 if res.tier == "quick" else 30
+    for _ in range(3 if res.tier == "quick" else 20):
+        for d, w in chain_nested(res, rng):
+            if len(res.oracle_failures) < 5:
+                res.oracle_failures.append((d, w))
+    nh = 5 if res.tier == "quick" else 32
     nbase = 6 if res.tier == "quick" else 12
     for i in range(nh):
         mem = rng.choice([180, 240, 400])
-        h = History(rng, ["aborts", "big", "small"][i % 3], mem)
+        # ("grow": tables gain page after page, so the crashed log creates chains of pages the file has never seen and the first
+        #  recovery's own page writes reach the file in any order: a later page of a chain without its predecessor)
+        h = History(rng, ["grow", "aborts", "big", "small"][i % 4], mem)
         try:
             h.run(rng.randrange(6, 13))
             if h.fail:
